@@ -64,9 +64,12 @@ def _world(vc):
         def apply(self, nn_state, samples):
             self.calls += 1
             return self.val
-    for cls in (Leaf, SBSum, SBProd):
+    # the operators are inherited from ObservableBase; a composite class that defines one of its own keeps its own
+    # (recompiled with the class)
+    for cls, orig in ((Leaf, None), (SBSum, Sum), (SBProd, Prod)):
         for n, f in ops.items():
-            setattr(cls, n, f)
+            if orig is None or n not in vars(orig):
+                setattr(cls, n, f)
     return Leaf, SBSum, SBProd, rew + SBSum._vc_rewritten + SBProd._vc_rewritten
 
 
@@ -170,6 +173,19 @@ def run_config(ctx, cfg):
             P1 = H * 3
             P2 = -H
             vc.check("history/H after H * 3 and -H", H.apply(S, X) == a.val + b.val and P1.apply(S, X) == 3 * (a.val + b.val) and P2.apply(S, X) == -(a.val + b.val))
+            # the same for a scaled observable (a Prod node) that is negated and subtracted more than once
+            F = 2.5 * a
+            lower, upper = b - F, b + F
+            n1, n2 = -F, -F
+            names = (F.name, F.symbol)
+            vc.check("history/F = 2.5*a shared by b - F, b + F, -F, -F: every one is its own arithmetic expression and F is unchanged",
+                     F.apply(S, X) == 2.5 * a.val and lower.apply(S, X) == b.val - 2.5 * a.val and upper.apply(S, X) == b.val + 2.5 * a.val
+                     and n1.apply(S, X) == -2.5 * a.val and n2.apply(S, X) == -2.5 * a.val and (-n1).apply(S, X) == 2.5 * a.val
+                     and F.apply(S, X) == 2.5 * a.val and (F.name, F.symbol) == names and n1 is not F and lower is not F)
+            G = (a * b) if False else (a + b) * 2
+            nG = -G
+            vc.check("history/-((a+b)*2) and a - ((a+b)*2) leave (a+b)*2 unchanged", (a - G).apply(S, X) == a.val - 2 * (a.val + b.val)
+                     and nG.apply(S, X) == -2 * (a.val + b.val) and G.apply(S, X) == 2 * (a.val + b.val))
             # history: an evaluation in which a leaf raised (a batch of the wrong width refused by a Pauli observable, say)
             # and the caller caught the error leaves no trace: later evaluations are the arithmetic on the current leaves
             class Refusing(Leaf):
